@@ -377,7 +377,7 @@ def used_terms(leaf):
                 ts += [a.a, a.b]
     for e in leaf.calls:
         if isinstance(e, Effect):
-            ts += [e.off] + ([e.size] if e.size is not None else [])
+            ts += [e.off] + ([e.size] if e.size is not None else []) + ([e.cap] if getattr(e, 'cap', None) is not None else [])
     for (b, off), (v, t) in leaf.store.items():
         ts.append(off if not isinstance(off, str) else 0)
         if not isinstance(v, (Ptr, tuple, list)) and v is not TOP and v is not None and not isinstance(v, (alg.Cond, alg.BoolOp, bool)):
